@@ -108,33 +108,8 @@ def random_events(ctx, rnd, n):
     return evs
 
 
-def describe(e):
-    d = {"op": e["op"], "type": e["ty"]["k"]}
-    if "txt" in e:
-        d["text"] = uncps(e["txt"])
-    if "v" in e:
-        d["value"] = {k: (uncps(v) if k == "name" else v) for k, v in e["v"].items()}
-    if "out" in e:
-        o = e["out"]
-        d["out"] = uncps(o["s"]) if o.get("t") == "text" else o
-    if "back" in e:
-        d["back"] = e["back"]
-    if e.get("exc"):
-        d["exc"] = e["exc"]
-    return d
-
-
-def judge(ctx, module, evs, what_prefix=""):
-    mism = ctx.validate_trace(module, evs)
-    byid = {e["id"]: e for e in evs}
-    for eid, clauses in mism.items():
-        e = byid[eid]
-        d = describe(e)
-        for cl in clauses:
-            case = dict(d, clause=cl.split(" ")[0], detail=cl,
-                        what="%s%s: %s" % (what_prefix, cl, d))
-            ctx.fail(case)
-    return mism
+describe = tc.describe
+judge = tc.judge
 
 
 def run(ctx):
